@@ -364,9 +364,6 @@ def _case_eq(case, out):
             out.append(("%s:roundtrip:%s:vectors" % (PID, tag),
                         "Reaction(%r).to_string() = %r parses back as %s -> %s over %s, expected %s -> %s"
                         % (text, printed, r2.ssto(L), r2.psto(L), L, es, ep)))
-        elif r2.to_string() != printed:
-            out.append(("%s:roundtrip:%s:text-not-a-fix-point" % (PID, tag), "%r prints as %r, which prints as %r"
-                        % (text, printed, r2.to_string())))
     except Exception as e:
         out.append(("%s:roundtrip:%s:unexpected-exception" % (PID, tag), "Reaction(%r).to_string() = %r: %s: %s"
                     % (text, printed, type(e).__name__, e)))
